@@ -868,6 +868,16 @@ pub fn run(opts: &Opts) -> Report {
             Err(_) => rep.bump("compile:rejected"),
         }
     }
+    // the deepest nesting the parser accepts (31 levels) and the levels just below it, for every nesting construct
+    for k in [8usize, 24, 28, 29, 30, 31] {
+        for (open, close) in [("int(", ")"), ("size(", ")"), ("[1].map(v, ", ")"), ("[", "]"), ("(", ")"), ("{'a': ", "}"), ("x.f(", ")"), ("[x][", "]"), ("has(", ")")] {
+            let src = format!("{}x{}", open.repeat(k), close.repeat(k));
+            match compile(&src) {
+                Ok(p) => check_program(&mut rep, &mut pending, &p, &Origin { tag: "compiled", label: format!("nesting {} levels of `{}..{}`: {}", k, open, close, src) }, k as u64 % 6, &mut totals),
+                Err(_) => rep.bump("compile:rejected"),
+            }
+        }
+    }
     for i in 0..n_src {
         let src = source(&mut rng, i);
         match compile(&src) {
